@@ -119,6 +119,7 @@ type Endpoint struct {
 	Filters      []FilterRec
 	Deadlines    int
 	writesCalled int
+	readsParked  int
 
 	flow      *Flow
 	sackSeqs  []uint32 // sequence numbers of probes the SACK target has received, in order
